@@ -53,6 +53,7 @@ type Engine struct {
 	guards        map[string]*GuardDecl // "pkgpath.Type" -> guard
 	libState      map[string]map[string]bool // package path -> heap names that are library-private state
 	prop          string
+	sweep         bool // zero-annotation sweep: loops without invariants are tolerated
 	mu            sync.Mutex
 }
 
